@@ -67,8 +67,33 @@ func TestFixedProbes(t *testing.T) {
 			}
 		}
 	}
-	cProbe.SetExhaustive(true)
-	cProbe.Note("enumerated %d (algorithm, level, size) combinations against the default server configuration", n)
+	// the default limit (20 MiB) at limit-1 / limit / limit+1: too heavy for the
+	// generated pass, so it is enumerated here
+	comps := []string{"", "gzip", "zstd", "snappy", "lz4"}
+	if vt.Thorough() {
+		comps = append(comps, "zlib", "deflate")
+	}
+	for _, comp := range comps {
+		for _, d := range []int{-1, 0, 1} {
+			for _, lim := range []int64{0, -1} {
+				if lim == -1 && (d != 1 || !vt.Thorough()) {
+					continue
+				}
+				s := Script{Limit: lim, DefaultEnabled: true, Reqs: []Req{{Comp: comp, ReadBuf: 65536,
+					Body: BodySpec{Kind: "mixed", Size: defaultMaxBytes + d, Seed: uint64(n)}}}}
+				var f *vt.Finding
+				var nt bool
+				cProbe.HangGuard(180*time.Second, s, "hang/http-roundtrip", func() { nt, f = runInnerWith(cProbe, &s) })
+				cProbe.Eval(nt, scriptKey(&s))
+				if f != nil && !cProbe.Soft(f, s) {
+					cProbe.Violation(f, s)
+					t.Fatalf("%v", f)
+				}
+				n++
+			}
+		}
+	}
+	cProbe.Note("enumerated %d (algorithm, level, size) combinations against the default server configuration, including 20 MiB-1/20 MiB/20 MiB+1 bodies", n)
 	observeUnsupportedListedName()
 }
 
